@@ -790,21 +790,23 @@ monitor:
 // ---------------------------------------------------------------------------
 
 func genC20(rt *rapid.T) c20Case {
+	// rare alternatives are written !g.Bool(100-pct): kit draws shrink towards
+	// Bool == true, so cases shrink away from the rare alternative
 	g := kit.G{T: rt}
 	c := c20Case{Kind: "multi"}
 	c.Cap = g.Int(1, 4, "cap")
-	if g.Bool(5, "cap8") {
+	if !g.Bool(95, "cap8") {
 		c.Cap = 8
 	}
 	// VERIF_C20_STRESS=off (sensitivity experiments): deterministic part only
-	if g.Bool(2, "stress") && os.Getenv("VERIF_C20_STRESS") != "off" {
+	if !g.Bool(98, "stress") && os.Getenv("VERIF_C20_STRESS") != "off" {
 		c.Stress = true
 		c.BatchDiv = kit.Pick(g, []int{0, 1, 2}, "batchdiv")
 		c.Workers = g.Int(2, 3*c.Cap+2, "workers")
 		c.Plan = rapid.SliceOfN(rapid.Uint8(), 20, 120).Draw(rt, "plan")
 		return c
 	}
-	if g.Bool(8, "single") {
+	if !g.Bool(92, "single") {
 		c.Kind = "single"
 	} else {
 		c.BatchDiv = kit.Pick(g, []int{0, 1, 2, 3}, "batchdiv")
